@@ -121,6 +121,28 @@ pub fn dispatch(f: &[&str]) -> String {
             let Some(s) = utf8(unhex(f[1])) else { return "invalid-utf8".into() };
             hexlist(&s.split_whitespace().collect::<Vec<_>>())
         }
+        "date.display" => {
+            // the Date header value for a second since the epoch; a panic (F37: outside 1970..9999) prints PANIC, the model says panic
+            use lettre::message::header::{self, Header};
+            let secs: u64 = f[1].parse().unwrap();
+            let st = std::time::UNIX_EPOCH + std::time::Duration::from_secs(secs);
+            let mut h = header::Headers::new();
+            h.set(header::Date::new(st));
+            format!("some\t{}", hex(h.get_raw("Date").unwrap_or("").as_bytes()))
+        }
+        "date.parse" => {
+            use lettre::message::header::{self, Header};
+            let Some(x) = utf8(unhex(f[1])) else { return "invalid-utf8".into() };
+            match header::Date::parse(&x) {
+                Ok(d) => {
+                    let secs = std::time::SystemTime::from(d).duration_since(std::time::UNIX_EPOCH).unwrap().as_secs();
+                    let mut h = header::Headers::new();
+                    h.set(d);
+                    format!("some\t{}\t{}", secs, hex(h.get_raw("Date").unwrap_or("").as_bytes()))
+                }
+                Err(_) => "none".into(),
+            }
+        }
         "xtext" => {
             let Some(s) = utf8(unhex(f[1])) else { return "invalid-utf8".into() };
             let p = MailParameter::Other { keyword: "K".into(), value: Some(s) };
